@@ -1,6 +1,9 @@
 """Native replay / bounded driver for C17: invariants along multi-round histories."""
 import sys
 
+import os
+# several host devices: the pmap backend then really packs several clients into one block
+os.environ['XLA_FLAGS'] = (os.environ.get('XLA_FLAGS', '') + ' --xla_force_host_platform_device_count=3').strip()
 import numpy as np
 
 from native import common
